@@ -25,7 +25,7 @@ Proof. unfold del. apply NoDup_filter. Qed.
 
 (* what a step does: it changes exactly one name *)
 Definition step_name (l : label) : nat :=
-  match l with LCall n | LLookup n | LCreate n | LCount n | LAdd n _ | LFail n | LStop n _ | LReap n => n end.
+  match l with LCall n | LLookup n | LCreate n | LCount n | LAdd n _ | LFail n | LCancel n | LAbandon n | LAddFail n | LStop n _ | LReap n => n end.
 
 Lemma step_frame s l s' m : step s l = Some s' -> m <> step_name l -> s' m = s m.
 Proof.
@@ -81,12 +81,19 @@ Qed.
 Lemma pinv_step s l s' : (forall n, pinv (s n)) -> step s l = Some s' -> forall n, pinv (s' n).
 Proof.
   intros I H n. destruct (Nat.eq_dec n (step_name l)) as [->|Hne]; [|rewrite (step_frame _ _ _ _ H Hne); apply I].
-  destruct l as [k|k|k|k|k ch|k|k p|k]; simpl in *; pose proof (I k) as P;
-    destruct (s k) as [nd nx rn fl fi wt hd tm c] eqn:Es; destruct P as [P1 P2 P3 P4]; simpl in *;
+  destruct l as [k|k|k|k|k ch|k|k|k|k|k p|k]; simpl in *; pose proof (I k) as P;
+    destruct (s k) as [nd nx rn fl fi wt hd tm c gu] eqn:Es; destruct P as [P1 P2 P3 P4]; simpl in *;
     inv_step H; rewrite upd_same; unfold finish; split; simpl in *; subst; simpl in *;
     auto; try lia; try discriminate;
     try (eapply handed_fid; eassumption); try (eapply handed_same; eassumption);
     try (destruct fl; simpl; lia).
+  - destruct n; reflexivity.
+  - intros f r [[= <- <-]|Hx]; [lia|]. apply P2 in Hx. lia.
+  - intros f r r' [[= <- <-]|Hx] [[= <-]|Hy]; try reflexivity.
+    + apply P2 in Hy. lia.
+    + subst. apply P2 in Hx. lia.
+    + eapply P3; eauto.
+  - destruct n; [reflexivity|discriminate].
 Qed.
 
 Lemma reach_pinv s : reach s -> forall n, pinv (s n).
@@ -127,8 +134,8 @@ Ltac gauto :=
   try (constructor; auto; fail).
 
 (* the step of name k, as a function on its record *)
-Lemma ginv_create nd nx rn fi wt hd tm c :
-  ginv (Nm nd nx rn FMake fi wt hd tm c) -> ginv (Nm nd (S nx) (nx :: rn) (FCreated nx) fi wt hd tm c).
+Lemma ginv_create nd nx rn fi wt hd tm c gu :
+  ginv (Nm nd nx rn FMake fi wt hd tm c gu) -> ginv (Nm nd (S nx) (nx :: rn) (FCreated nx) fi wt hd tm c gu).
 Proof.
   intros [G1 G2 G3 G4 G5 G6 G7 G8]; simpl in *. destruct (G7 eq_refl) as [-> ->].
   split; simpl; intros; gauto.
@@ -137,9 +144,9 @@ Proof.
   - constructor; [|assumption]. intros Hin. apply G1 in Hin. lia.
 Qed.
 
-Lemma ginv_stop nd nx rn fl fi wt hd tm c p :
-  ginv (Nm nd nx rn fl fi wt hd tm c) -> nd = Some p -> In p rn ->
-  ginv (Nm nd nx (del p rn) fl fi wt hd (tm ++ [p]) c).
+Lemma ginv_stop nd nx rn fl fi wt hd tm c gu p :
+  ginv (Nm nd nx rn fl fi wt hd tm c gu) -> nd = Some p -> In p rn ->
+  ginv (Nm nd nx (del p rn) fl fi wt hd (tm ++ [p]) c gu).
 Proof.
   intros [G1 G2 G3 G4 G5 G6 G7 G8] -> Hin; simpl in *.
   assert (Htm : tm = []).
@@ -157,8 +164,8 @@ Qed.
 Lemma ginv_step s l s' : (forall n, ginv (s n)) -> step_ok s l = true -> step s l = Some s' -> forall n, ginv (s' n).
 Proof.
   intros I Ok H n. destruct (Nat.eq_dec n (step_name l)) as [->|Hne]; [|rewrite (step_frame _ _ _ _ H Hne); apply I].
-  destruct l as [k|k|k|k|k ch|k|k p|k]; simpl in *; pose proof (I k) as P;
-    destruct (s k) as [nd nx rn fl fi wt hd tm c] eqn:Es; pose proof P as P0; destruct P as [G1 G2 G3 G4 G5 G6 G7 G8]; simpl in *;
+  destruct l as [k|k|k|k|k ch|k|k|k|k|k p|k]; simpl in *; pose proof (I k) as P;
+    destruct (s k) as [nd nx rn fl fi wt hd tm c gu] eqn:Es; pose proof P as P0; destruct P as [G1 G2 G3 G4 G5 G6 G7 G8]; simpl in *;
     inv_step H; rewrite upd_same; unfold finish; simpl in *; subst; simpl in *;
     try (rewrite mem_In in *);
     try (apply ginv_create; exact P0);
@@ -169,7 +176,11 @@ Proof.
     try (destruct G5 as [X|(q0 & X & Y & Z)]; [discriminate X|injection X as -> ->; injection Y as ->];
          try (left; reflexivity); try (split; reflexivity);
          match goal with Hx : In _ rn |- _ => destruct (G3 _ Hx) as [X|X]; [injection X as ->; contradiction|auto] end; fail).
-
+  - destruct (G3 _ H) as [X|X]; [left; exact X|discriminate X].
+  - destruct n; discriminate H.
+  - apply NoDup_del; assumption.
+  - right. exists p. subst tm. simpl. repeat split; auto. intros X. apply In_del in X. tauto.
+  - right. subst tm. reflexivity.
 Qed.
 
 Lemma reach_g_reach s : reach_g s -> reach s.
@@ -217,8 +228,8 @@ Proof.
   destruct (Nat.eq_dec n (step_name l)) as [->|Hne].
   2:{ unfold completes in C. rewrite (step_frame _ _ _ _ H Hne) in C. lia. }
   unfold completes in C.
-  destruct l as [k|k|k|k|k ch|k|k q|k]; simpl in *;
-    destruct (s k) as [nd nx rn fl fi wt hd tm c] eqn:Es; destruct G as [G1 G2 G3 G4 G5 G6 G7 G8]; simpl in *;
+  destruct l as [k|k|k|k|k ch|k|k|k|k|k q|k]; simpl in *;
+    destruct (s k) as [nd nx rn fl fi wt hd tm c gu] eqn:Es; destruct G as [G1 G2 G3 G4 G5 G6 G7 G8]; simpl in *;
     inv_step H; rewrite upd_same in *; unfold finish in *; simpl in *; try lia.
   - (* lookup found a running instance *)
     apply in_repeat_app in Hin as [[= <-]|Hin]; [split; [reflexivity|now apply mem_In]|].
